@@ -635,3 +635,74 @@ impl Ctx {
         }
     }
 }
+
+// ---- C07: generic declarations -------------------------------------------------------------------------
+
+impl Ctx {
+    /// The declaration parses, is generic over exactly `params` (name, default as TypeScript text)
+    /// and mentions no name that is neither a parameter, nor itself, nor a declared type.
+    pub fn check_generic_decl(&mut self, label: &str, decl: &dyn Fn() -> String, params: &[(&str, Option<&str>)]) {
+        self.rep.evaluations += 1;
+        let text = match guarded(decl) {
+            Ok(t) => t,
+            Err(p) => {
+                self.violation("declaration-panics", json!({"type": label, "panic": p}));
+                return;
+            }
+        };
+        let d = match tsmodel::parse_decl(&text) {
+            Ok(d) => d,
+            Err(e) => {
+                self.violation("declaration-does-not-parse", json!({"type": label, "decl": text, "error": format!("{e:?}")}));
+                return;
+            }
+        };
+        let mut want = vec![];
+        for (n, def) in params {
+            let def = match def {
+                None => None,
+                Some(t) => match tsmodel::parse_type(t) {
+                    Ok(t) => Some(t),
+                    Err(e) => {
+                        self.rep.machinery_errors.push(format!("{}: expected default {t}: {e:?}", self.case_id));
+                        return;
+                    }
+                },
+            };
+            want.push((n.to_string(), def));
+        }
+        if d.params != want {
+            self.violation(
+                "declared-type-parameters-differ",
+                json!({"type": label, "decl": text, "declared": format!("{:?}", d.params), "expected": format!("{want:?}")}),
+            );
+        }
+        let env = self.env();
+        let stray: Vec<String> = tsmodel::decl_free_names(&d)
+            .into_iter()
+            .filter(|n| !BUILTIN.contains(&n.as_str()) && !env.contains_key(n))
+            .collect();
+        if !stray.is_empty() {
+            self.violation("declaration-mentions-unbound-name", json!({"type": label, "decl": text, "unbound": stray}));
+        }
+        self.count("generic_declarations", 1);
+    }
+
+    pub fn check_all_same(&mut self, check: &str, items: &dyn Fn() -> Vec<(String, String)>) {
+        self.rep.evaluations += 1;
+        match guarded(items) {
+            Err(p) => self.violation("binding-function-panics", json!({"check": check, "panic": p})),
+            Ok(v) => {
+                self.count("instantiations_compared", v.len() as u64);
+                if let Some((l0, s0)) = v.first() {
+                    for (l, s) in &v[1..] {
+                        if s != s0 {
+                            self.violation(check, json!({"first": {"at": l0, "text": s0}, "other": {"at": l, "text": s}}));
+                            return;
+                        }
+                    }
+                }
+            }
+        }
+    }
+}
